@@ -143,6 +143,28 @@ def failMask (decimalMode : Bool) (inp : List Char) (prec : Int) (out : List Cha
 def holds (decimalMode : Bool) (inp : List Char) (prec : Int) (out : List Char) : Bool :=
   failMask decimalMode inp prec out == 0
 
+/-! ## the half-unit bound as a statement about rationals -/
+
+/-- digits with the leading zeros dropped -/
+def stripZeros (l : List Char) : List Char := l.dropWhile (· == '0')
+
+/-- exponent `L` of the leading significant digit (`10^L ≤ |value| < 10^(L+1)`); `none` for zero -/
+def Parsed.leadExp (p : Parsed) : Option Int :=
+  let ip := stripZeros p.ip
+  if !ip.isEmpty then some (p.exp + (ip.length : Int) - 1)
+  else
+    let f := stripZeros p.fp
+    if f.isEmpty then none else some (p.exp - ((p.fp.length - f.length : Nat) : Int) - 1)
+
+def leadExp (s : List Char) : Option Int := (parse s).bind Parsed.leadExp
+
+/-- `w` is within half a unit of the `p`-th significant digit of the value `v` of the lexeme `s`
+    (for `v = 0`: `w = v`) -/
+def WithinHalfUnit (s : List Char) (p : Int) (v w : Rat) : Prop :=
+  match leadExp s with
+  | none => w = v
+  | some L => v - (1 / 2) * (10 : Rat) ^ (L - p + 1) ≤ w ∧ w ≤ v + (1 / 2) * (10 : Rat) ^ (L - p + 1)
+
 /-! ## known findings -/
 
 /-- trigger of the known findings K-C08-1/2: a precision is applied (`0 < prec`) to a lexeme whose
